@@ -30,6 +30,8 @@ def expr(e, branch=False):
         return "."
     if t == "neg":
         s = expr(e["e"])
+        if e["e"]["t"] == "bin":           # the prefix operator binds tighter than any infix operator
+            s = "<" + s + (" >" if s.endswith(">") else ">")
         return "<-" + s + (" >" if s.endswith(">") else ">")
     if t == "bin":
         def side(x):
